@@ -379,3 +379,14 @@ class TDTree(t.TypedDict, total=False):  # refers back to itself by a bare (not 
 
 
 UnionRec = t.TypeAliasType("UnionRec", "t.Union[list[UnionRec], int]")
+
+
+@dataclasses.dataclass
+class Person:
+    age: int
+    peers: list["Person"] = dataclasses.field(default_factory=list)
+
+
+@dataclasses.dataclass
+class Team:  # reaches list[Person] before Person itself does (the annotation is revisited inside the recursive class)
+    members: list[Person]
